@@ -140,15 +140,20 @@ def context_guards(rep, prog):
     # the validation function: reachable from crypto_pwhash, returns Result, and compares the output
     # length, salt length, lanes, memory and passes with constants (>= 8 range comparisons on parameters)
     roots = prog.by_path.get("classic::crypto_pwhash::crypto_pwhash", [])
-    fs = []
+    qual = []
     for k in prog.reach_fns(roots):
         g = prog.by_key[k]
         if g.locals[0].get("path") != "std::result::Result" or g.argc < 6:
             continue
-        ef_ = edge_facts(g, cm.view_info, interproc=False)    # the comparisons are in its own body
-        cmp_params = {str(l) for fs_ in ef_.values() for op, l, r in fs_ if isinstance(l, tuple) and l[0] in ("len", "local")}
+        # comparisons in its own body or in validation helpers it calls with `?` (their Ok-postconditions)
+        ef_ = edge_facts(g, cm.view_info)
+        cmp_params = {str(l) for fs_ in ef_.values() for op, l, r in fs_ if isinstance(l, tuple) and l[0] in ("len", "local")
+                      and isinstance(l[1], int) and 1 <= l[1] <= g.argc}
         if len(cmp_params) >= 5:
-            fs.append(g)
+            qual.append(g)
+    qk = {g.key for g in qual}
+    # the lowest such function (its callers inherit the facts through its own Ok-postcondition)
+    fs = [g for g in qual if not any(h.key in qk and h.key != g.key for h in prog.callees(g))]
     if not fs:
         rep.violation("ANCHOR", "Argon2Context::new", "Argon2 parameter validation function not found")
         return
@@ -232,40 +237,72 @@ def convert(rep, prog):
         rep.ob("PROV", "convert_costs = (opslimit as u32, (memlimit/1024) as u32)", ok, "returns %s" % txt, loc=f.loc())
 
 
+def context_field_roles(prog, roots):
+    """{field name of the Argon2 context record: role} - from the record literal in the constructor
+    whose parameters' roles are propagated from the public crypto_pwhash signature"""
+    best, best_path = {}, None
+    for g in prog.fns:
+        for b_, i_, st in g.assigns():
+            rv = st["rv"]
+            if rv["k"] == "agg" and rv.get("agg") == "adt" and rv.get("path", "").startswith("argon2::") and len(rv.get("fields", [])) >= 6:
+                roles = ctor_roles(prog, roots, g)
+                inv = {p_: r_ for r_, p_ in roles.items()}
+                out = {}
+                for nm, o in zip(rv["fields"], rv["ops"]):
+                    ls = list(operand_locals(o))
+                    root = cm.view_info(g, ls[0])[0] if ls else None
+                    if root in inv:
+                        out[nm] = inv[root]
+                if len(out) > len(best):
+                    best, best_path = out, rv["path"]
+    return best, best_path
+
+
 def h0(rep, prog):
-    # H0: the function below crypto_pwhash that initialises BLAKE2b and absorbs >= 8 little-endian integers
+    # H0: the lowest function below crypto_pwhash whose view (private helpers folded in) initialises
+    # BLAKE2b and encodes >= 8 little-endian integers
+    from ..inline import inline
     roots = prog.by_path.get("classic::crypto_pwhash::crypto_pwhash", [])
-    fs = []
+    is_up = lambda c: c.rpath.endswith("::State::update") and "blake2b" in c.rpath
+    qual = {}
     for k in prog.reach_fns(roots):
         g = prog.by_key[k]
-        ups_ = [c for c in g.calls() if c.rpath.endswith("::State::update") and "blake2b" in c.rpath]
-        les_ = [c for c in g.calls() if c.path.endswith("to_le_bytes")]
-        if len(ups_) >= 8 and len(les_) >= 8:
-            fs.append(g)
+        if not g.file.endswith("argon2.rs"):
+            continue
+        v = inline(prog, g)
+        if any(c.rpath.endswith("::State::init") and "blake2b" in c.rpath for c in v.calls()) and \
+                sum(1 for c in v.calls() if c.path.endswith("to_le_bytes")) >= 8 and any(is_up(c) for c in v.calls()):
+            qual[k] = v
+    fs = [v for k, v in qual.items() if not any(h.key in qual and h.key != k for h in prog.callees(prog.by_key[k]))]
     if not fs:
         rep.violation("ANCHOR", "H0", "no function below crypto_pwhash absorbs the Argon2 parameters into BLAKE2b")
         return
     f = fs[0]
-    ups = [c for c in f.calls() if c.rpath.endswith("::State::update") and "blake2b" in c.rpath]
-    # classify each update's operand
+    froles, ctx_path = context_field_roles(prog, roots)
+    if len(froles) < 6:
+        rep.violation("ANCHOR", "H0 context roles", "cannot establish the roles of the Argon2 context fields (found %s)" % froles, loc=f.loc())
+        return
+    ups = [c for c in f.calls() if is_up(c)]
+    # an update inside `for x in [a, b, ..]` absorbs a, b, .. in order; updates not ordered by dominance
+    # (alternatives in different arms) are taken one by one
+    groups = []
+    ordered = sorted(ups, key=lambda c: (len(f.dom.get(c.bb, ())), c.bb))
     seq = []
-    for c in ups:
-        e = call_arg_exprs(c)[1]
-        label = classify_h0(f, e)
-        seq.append((c, label))
-    # mandatory prefix in dominance order
+    for c in ordered:
+        for x in cm.absorb_sequence(f, [c]) or []:
+            seq.append((c, classify_h0(f, x.expr, froles), x[2]))
     want = ["lanes", "outlen", "m_cost", "t_cost", "version", "type", "pwdlen", "pwd", "saltlen", "salt"]
     got = []
-    for c, l in sorted(seq, key=lambda x: (len(f.dom.get(x[0].bb, ())), x[0].bb)):
+    for c, l, anchor in seq:
         if l in want and l not in got:
             got.append(l)
     rep.ob("H0", "absorption order", got == want, "H0 absorbs %s; RFC 9106 order is %s" % (got, want), loc=f.loc())
     # each mandatory length/parameter update dominates the finalize
     fin = [c for c in f.calls() if c.rpath.endswith("::State::finalize")]
     if fin:
-        for c, l in seq:
+        for c, l, anchor in seq:
             if l in ("lanes", "outlen", "m_cost", "t_cost", "version", "type", "pwdlen", "saltlen"):
-                rep.ob("H0", "%s unconditional" % l, c.bb in f.dom.get(fin[0].bb, ()), "update(%s) dominates finalize" % l, loc=c.loc())
+                rep.ob("H0", "%s unconditional" % l, anchor in f.dom.get(fin[0].bb, ()), "update(%s) dominates finalize" % l, loc=c.loc())
     le = all(c.path.endswith("to_le_bytes") for c in f.calls() if "_bytes" in c.path and c.path.split("::")[-1].startswith("to_"))
     rep.ob("H0", "little-endian", le, "all integer encodings are to_le_bytes", loc=f.loc())
     ini = [c for c in f.calls() if c.rpath.endswith("::State::init")]
@@ -273,40 +310,61 @@ def h0(rep, prog):
         rep.ob("H0", "digest length 64", evaluate(call_arg_exprs(ini[0])[0], {}) == 64, "prehash digest length %r" % evaluate(call_arg_exprs(ini[0])[0], {}), loc=ini[0].loc())
 
 
-def classify_h0(f, e):
-    r = repr(e)
-    if e.k == "call" and e.a.path.endswith("to_le_bytes"):
-        x = call_arg_exprs(e.a)[0]
-        rx = repr(x)
-        if "lanes" in rx:
-            return "lanes"
-        if "m_cost" in rx:
-            return "m_cost"
-        if "t_cost" in rx:
-            return "t_cost"
-        if x.k == "cast" and x.a.k == "call" and x.a.a.name == "len":
-            ar = repr(call_arg_exprs(x.a.a)[0])
-            for nm, lab in (("output", "outlen"), ("password", "pwdlen"), ("salt", "saltlen"), ("secret", "secretlen"), ("ad", "adlen")):
-                if ar.endswith("." + nm) or ("." + nm) in ar:
-                    return lab
-            return "len?"
-        if x.k == "cast" and (x.a.k == "local" or x.a.k == "discr"):
-            return "type"
+LEN_LABEL = {"output": "outlen", "password": "pwdlen", "salt": "saltlen", "secret": "secretlen", "ad": "adlen"}
+INT_LABEL = {"parallelism": "lanes", "m_cost": "m_cost", "t_cost": "t_cost"}
+
+
+def _field_role(e, froles):
+    """role of the context field an expression projects (through unwrap/as_ref/deref adapters)"""
+    d = 0
+    while e is not None and d < 8:
+        d += 1
+        if e.k == "call" and e.a.name in ("unwrap", "expect", "as_ref", "deref", "as_slice", "unwrap_unchecked", "clone") and e.a.args:
+            e = call_arg_exprs(e.a)[0]
+            continue
+        if e.k == "cast":
+            e = e.a
+            continue
+        if e.k == "field" and e.b.split(".")[-1] in ("0",) and e.a.k == "field":
+            e = e.a          # Some.0 of an Option field
+            continue
+        break
+    if e is not None and e.k == "field":
+        nm = e.b.split(".")[-1] if not e.b.endswith(".0") else e.b.split(".")[0]
+        return froles.get(e.b) or froles.get(nm)
+    return None
+
+
+def classify_h0(f, e, froles):
+    if e is None:
+        return "other"
+    while e.k == "cast":
+        e = e.a
+    if (e.k == "call" and e.a.path.endswith("to_le_bytes")) or (e.k == "apply" and e.a == "to_le_bytes"):
+        x = call_arg_exprs(e.a)[0] if e.k == "call" else e.b[0]
+        y = x
+        while y.k == "cast":
+            y = y.a
+        ro = _field_role(y, froles)
+        if ro in INT_LABEL:
+            return INT_LABEL[ro]
+        if y.k == "call" and y.a.name == "len" and y.a.args:
+            ro = _field_role(call_arg_exprs(y.a)[0], froles)
+            return LEN_LABEL.get(ro, "len?")
         v = evaluate(x, {})
         if v == 19:
             return "version"
-        if v == 0:
+        if v == 0 and not isinstance(v, bool):
             return "zero"
+        if y.k in ("local", "discr"):
+            return "type"
         if x.k == "const":
             return "version" if x.b and "VERSION" in str(x.b) else "const"
         return "le?"
-    if e.k == "field":
-        for nm, lab in (("password", "pwd"), ("salt", "salt")):
-            if e.b == nm:
-                return lab
-    if "password" in r:
+    ro = _field_role(e, froles)
+    if ro == "password":
         return "pwd"
-    if ".salt" in r:
+    if ro == "salt":
         return "salt"
     return "other"
 
